@@ -1097,6 +1097,13 @@ func c20Post(tier string, seed int64, m *core.Part) {
 			m.Violations = append(m.Violations, core.ViolationRec{CaseID: "racepass", Detail: fmt.Sprintf("the free-running pass (thread bodies on real goroutines) crashed: %v\n%s", err, tail), Replay: path})
 			return
 		}
+		if err != nil && strings.Contains(err.Error(), "signal: killed") {
+			// killed from outside (memory pressure on the machine): what was completed stands
+			m.Capped = true
+			m.CapNote = fmt.Sprintf("free-running pass was killed from outside after %d pairs; %s", strings.Count(string(out), "racepass pair "), m.CapNote)
+			m.Counters["race_pass_pairs"] = int64(strings.Count(string(out), "racepass pair "))
+			return
+		}
 		m.Broken = fmt.Sprintf("race pass did not complete: %v\n%s", err, tail)
 		return
 	}
